@@ -202,6 +202,31 @@ func checkC04(r *core.Run) {
 		}
 		return true
 	})
+	if p2call == nil {
+		// the deciding unit calls a function that passes the decision on to the dispatcher (a role switch around
+		// a helper that sends commit or rollback): that function is the one handed the flag
+		ast.Inspect(u.body, func(n ast.Node) bool {
+			c, ok := n.(*ast.CallExpr)
+			if !ok || p2call != nil {
+				return true
+			}
+			g := w.Info(core.Callee(uinfo, c))
+			if g == nil || g.Pkg.PkgPath != pTM || g == with || g == p2fn {
+				return true
+			}
+			hasBool := false
+			for _, p := range paramObjs(g) {
+				if b, ok := p.Type().Underlying().(*types.Basic); ok && b.Kind() == types.Bool {
+					hasBool = true
+				}
+			}
+			if hasBool && w.CallPath(g, func(x *types.Func) bool { return x == p2fn.Obj }, 2) != nil {
+				p2call, p2fn = c, g
+				r.Fn(g)
+			}
+			return true
+		})
+	}
 	keyW := core.ShortKey(with.Obj)
 	if p2call == nil {
 		r.Bad("C04.decision", keyW+" : second-phase flag", w.Pos(p2lit.Pos()), "cannot find the call of the commit/rollback dispatcher in the deferred closure or the helper it delegates to")
@@ -331,15 +356,29 @@ func checkC04(r *core.Run) {
 			}}
 		res := sp.Analyze(p2fn)
 		nc, nr := 0, 0
+		type siteKey struct {
+			call   *ast.CallExpr
+			commit bool
+		}
+		counted := map[siteKey]bool{}
 		for _, cp := range res.Calls {
 			r.Sites++
 			k := core.ShortKey(p2fn.Obj) + " -> " + core.ShortKey(cp.Callee)
+			// (a call site met once per partition of the analysis is one site; a call through a function value that
+			// is the commit in one partition and the rollback in the other is one site of each)
+			sk := siteKey{cp.Call, inSet("commit", cp.Tags...)}
+			first := !counted[sk]
+			counted[sk] = true
 			if inSet("commit", cp.Tags...) {
-				nc++
+				if first {
+					nc++
+				}
 				r.Check(cp.Before.IsTrue(flag) && cp.Before.Has("launcher") && !cp.Before.Maybe("rollback"), "C04.decision", k, w.Pos(cp.Call.Pos()),
 					"commit only when the flag is true, role is Launcher, no rollback before", "the commit request is reachable with the success flag not known true, outside the Launcher guard, or after a rollback")
 			} else {
-				nr++
+				if first {
+					nr++
+				}
 				r.Check(cp.Before.IsFalse(flag) && cp.Before.Has("launcher") && !cp.Before.Maybe("commit"), "C04.decision", k, w.Pos(cp.Call.Pos()),
 					"rollback only when the flag is false, role is Launcher, no commit before", "the rollback request is reachable with the success flag not known false, outside the Launcher guard, or after a commit")
 			}
@@ -873,9 +912,20 @@ func toDNF(e ast.Expr, neg bool) ([]clause, bool) {
 		if l, ok := lit(x, neg); ok {
 			return []clause{{l}}, true
 		}
+	case *ast.CallExpr:
+		// a predicate of the same type whose body is one boolean return over the same receiver stands for that
+		// expression (b.retriesExhausted() with `return b.cfg.MaxRetries != 0 && ...`)
+		if dnfInline != nil {
+			if body := dnfInline(x); body != nil {
+				return toDNF(body, neg)
+			}
+		}
 	}
 	return nil, false
 }
+
+// dnfInline, when set, answers the boolean expression a predicate call stands for (nil if it is not one)
+var dnfInline func(c *ast.CallExpr) ast.Expr
 
 func canonDNF(cs []clause) string {
 	var parts []string
@@ -910,6 +960,28 @@ func c04Backoff(r *core.Run) {
 		}
 	}
 	key := "pkg/util/backoff.(Backoff).Err non-nil <=> !Ongoing()"
+	dnfDepth := 0
+	dnfInline = func(c *ast.CallExpr) ast.Expr {
+		if dnfDepth > 3 || len(c.Args) != 0 {
+			return nil
+		}
+		g := w.Info(core.Callee(on.Pkg.TypesInfo, c))
+		if g == nil || g.Pkg != on.Pkg || g.Decl.Body == nil || len(g.Decl.Body.List) != 1 || g.Decl.Recv == nil {
+			return nil
+		}
+		rs, ok := g.Decl.Body.List[0].(*ast.ReturnStmt)
+		if !ok || len(rs.Results) != 1 {
+			return nil
+		}
+		// same receiver name at the call and in the predicate, so that the operands read alike
+		sel, ok := ast.Unparen(c.Fun).(*ast.SelectorExpr)
+		if !ok || len(g.Decl.Recv.List) != 1 || len(g.Decl.Recv.List[0].Names) != 1 || core.ExprString(sel.X) != g.Decl.Recv.List[0].Names[0].Name {
+			return nil
+		}
+		dnfDepth++
+		return rs.Results[0]
+	}
+	defer func() { dnfInline = nil }()
 	if onExpr == nil {
 		r.Undecided("C04.retry", key, w.Pos(on.Decl.Pos()), "Ongoing is not a single boolean return expression")
 		return
